@@ -162,6 +162,14 @@ def value_alts(facts, body, tree, depth=0, expanded=False):
             return [Alt(apply_fn(facts, a[2], (('unwrap', x),)), [(nx, {some})]), Alt(a[1], [(nx, {none})])]
         if isopt and n == 'map_or_else' and len(a) == 3:
             return [Alt(apply_fn(facts, a[2], (('unwrap', x),)), [(nx, {some})]), Alt(apply_fn(facts, a[1], ()), [(nx, {none})])]
+        if isopt and n == 'or_else' and len(a) == 2:
+            # x.or_else(f): x itself when it is Some / Ok, otherwise whatever f() gives
+            d = apply_fn(facts, a[1], () if 'Option' in p[1] else (('unwrap_err', x),))
+            return [Alt(_some(v.value) if 'Option' in p[1] else ('agg', 'adt', OK, (v.value,)), v.variants, v.atoms) for v in _payload(facts, body, x, depth, (some,))] + \
+                [Alt(v.value, [(nx, {none})] + v.variants, v.atoms) for v in value_alts(facts, body, d, depth + 1, True)]
+        if isopt and n == 'or' and len(a) == 2 and 'Option' in p[1]:
+            return [Alt(_some(v.value), v.variants, v.atoms) for v in _payload(facts, body, x, depth, (some,))] + \
+                [Alt(v.value, [(nx, {none})] + v.variants, v.atoms) for v in value_alts(facts, body, a[1], depth + 1, True)]
         if n == 'map' and len(a) == 2 and 'Option' in p[1]:
             return [Alt(_some(apply_fn(facts, a[1], (('unwrap', x),))), [(nx, {'Some'})]), Alt(_none(), [(nx, {'None'})])]
         if n == 'ok' and 'Result' in p[1] and len(a) == 1:
